@@ -9,6 +9,7 @@
 (*   "trace"    [d0, d, sv, pv, st, P, i, coated]                            *)
 (*   "unpol"    [iu, ia, ib, sa, sb]                                         *)
 (*   "surface"  [n1, n2, d0, d1, ih, iv, iu]                                 *)
+(*   "inlens"   [ipass, iblock, iunpol, itwice]                              *)
 (* Verdicts are total: every event gets the set of failing clause names.     *)
 EXTENDS Dyadic, Json, IOUtils, TLC
 DNear(a, b, scale, bits) == Small(DSub(a, b), scale, bits)
@@ -27,6 +28,8 @@ Judge(e) ==
     [] e.t = "trace" -> IF TraceFin(e) THEN P!JudgeTrace(e) ELSE {"field_finite"}
     [] e.t = "unpol" -> IF UnpolFin(e) THEN P!JudgeUnpolarized(e) ELSE {"field_finite"}
     [] e.t = "surface" -> P!JudgeSurface(e)
+    [] e.t = "inlens" -> IF IsFin(e.ipass) /\ IsFin(e.iblock) /\ IsFin(e.iunpol) /\ IsFin(e.itwice)
+                         THEN P!JudgeInLens(e) ELSE {"field_finite"}
     [] OTHER -> {"unknown_event"}
 Init == l = 0
 Next == /\ l < Len(Trace)
